@@ -378,12 +378,20 @@ def newFrame : M Nat := fun st => .ok st.heap.size { st with heap := st.heap.pus
 
 /-! ### operators -/
 
+/-- Dyadic rationals with numerator and denominator below 2^53 are exactly representable as
+    doubles, and `+ - * %` of two such numbers whose exact result is again of this form is computed
+    exactly by IEEE arithmetic.  Anything else is outside the model. -/
+def exactDouble (q : Rat) : Bool :=
+  q.num.natAbs < 9007199254740992 && q.den < 9007199254740992 && (q.den &&& (q.den - 1)) == 0
+
 def numOp (op : BinOp) (a b : Rat) : Option Value :=
+  if !(exactDouble a && exactDouble b) then none else
+  let guard (v : Rat) : Option Value := if exactDouble v then some (.num v) else none
   match op with
-  | .add => some (.num (a + b))
-  | .sub => some (.num (a - b))
-  | .mul => some (.num (a * b))
-  | .mod => if b == 0 then none else some (.num (a - b * ((a / b).floor : Int)))
+  | .add => guard (a + b)
+  | .sub => guard (a - b)
+  | .mul => guard (a * b)
+  | .mod => if b == 0 then none else guard (a - b * ((a / b).floor : Int))
   | .lt => some (.bool (a < b))
   | .gt => some (.bool (a > b))
   | .le => some (.bool (a ≤ b))
@@ -397,7 +405,10 @@ def binOp (op : BinOp) (a b : Value) : M Value :=
   | .ne => pure (.bool (!(a.eq b)))
   | .add =>
     match a, b with
-    | .num x, .num y => pure (.num (x + y))
+    | .num x, .num y =>
+      match numOp .add x y with
+      | some v => pure v
+      | none => fail .unsupported
     | .str s q, _ =>
       match b with
       | .str t _ => pure (.str (s ++ t) q)
